@@ -21,6 +21,13 @@ GEN_RULE = ("cases are drawn by rapid from the shared history generator (fs-op h
             "entry names, Add/Remove/WatchList at quiescent points, segments run quiescent / plugged burst / free-running burst, "
             "Events capacity drawn per case); distinct = hash of the skeleton (capacity + step kinds + directory of each path + success/failure of each step); ")
 
+def pure(rule, parts, quick, thorough, **kw):
+    d = dict(level="exploration", rule=rule, parts=parts, rapid=False, quick=dict(checks=quick, shards=1, cap_s=600),
+             thorough=dict(checks=thorough, shards=4, cap_s=1800), assumptions=kw.pop("assumptions", []))
+    d.update(kw)
+    return d
+
+
 PROPS = {
     "C01": e1("TestC01", GEN_RULE + "non-trivial = >=4 events expected and at least one of: a plugged burst with >=2 notifications in one read, an entry name within 1 of a multiple of 16 bytes, a file-and-parent double report, a hard-link/held-descriptor/overwrite op that produced notifications"),
     "C02": e1("TestC02", GEN_RULE + "non-trivial = >=3 delivered events and >=1 op that is silent by specification (unwatched place, after Remove, housekeeping notification)"),
@@ -31,4 +38,57 @@ PROPS = {
     "C10": e1("TestC10", GEN_RULE + "non-trivial = a step removed a kernel watch while >=1 notification for it was still unread (plugged)"),
     "C11": e1("TestC11", GEN_RULE + "non-trivial = an unmatched move-out before a matched move, or >10 moves"),
     "C12": e1("TestC12", GEN_RULE + "non-trivial = a re-Add of a listed path naming a new inode while the old one is alive, or >=3 add/remove cycles"),
+    "C15": pure("exhaustive enumeration: all 2^16 combinations of the 16 inotify flags x cookie in {0,7} through the real translation function; all 2^9-1 "
+                "requested operation sets x follow/nofollow with the kernel mask read back from /proc/self/fdinfo; all 2^11 kqueue NOTE_* "
+                "combinations x link name; all 2^16 Windows masks, actions 0..8, 2^17 subscription masks; xSupports on all 2^9 sets for inotify, kqueue, "
+                "Windows, FEN. non-trivial = a combination of >=2 flags/operations (distinct by mask)",
+                [dict(pkg="e3", test="TestC15Inotify", replay_test="TestReplayC15Inotify", single=True),
+                 dict(pkg="winprop", test="TestC15Windows", replay_test="TestReplayC15Windows", gen="win", single=True)],
+                1, 1, exhaustive=True,
+                assumptions=["the documented tables in the harness (written from the README/godoc and inotify(7)/kqueue(2)/Win32 docs) are the specification",
+                             "/proc/self/fdinfo shows the mask the kernel actually holds for a mark",
+                             "Windows and FEN functions are extracted from the working tree with go/parser and run on Linux; their OS behaviour is not reached"]),
+    "C16": pure("exhaustive over all Op values with only the low 16 bits set x 228 probe sets for Has (every single bit, 0, all-ones, 192 fixed pseudo-random sets); "
+                "String parsed back to the set for all of them; Event.String for 1024 ops x hostile names; rapid above bit 16 with arbitrary byte-string names. "
+                "non-trivial = >=2 bits set (exhaustive part) or high bits with a name needing quoting (sampled part); distinct by value",
+                [dict(pkg="e3", test="TestC16", replay_test="TestReplayC16")], 20000, 200000, rapid=False,
+                assumptions=["operation names CREATE, WRITE, REMOVE, RENAME, CHMOD, OPEN, READ, CLOSE_WRITE, CLOSE_READ are the documented renderings"]),
+    "C20": pure("exhaustive: all 132496 pairs of line sequences over {a, b, empty} up to length 5; rapid: texts up to 400 lines from a small vocabulary with block "
+                "inserts/deletes/replaces and surrounding white space; DiffMatch: generated templates of literals and placeholders with conforming or minimally "
+                "violating texts. Oracle: independent patch applier, header/body arithmetic, <=3 context lines; independent backtracking matcher. "
+                "non-trivial = diff with >=1 hunk on texts of >8 lines / template with >=3 tokens; distinct by (lengths, hunks) or template",
+                [dict(pkg="ztestprop", test="TestC20Exhaustive", replay_test="TestReplayC20", gen="ztest", single=True, checks_scale=1),
+                 dict(pkg="ztestprop", test="TestC20", replay_test="TestReplayC20", gen="ztest"),
+                 dict(pkg="ztestprop", test="TestC20Match", replay_test="TestReplayC20", gen="ztest")], 5000, 50000,
+                assumptions=["diff.go is copied verbatim from the working tree at check time", "a DiffMatch case that straddles UTC midnight is discarded"]),
+}
+
+PBT = "property-based testing (pgregory.net/rapid) of generated histories against a reference model fed by a shadow inotify instance; ddmin-shrunk replay"
+E1_NOTE = ("trusted: Linux inotify delivers the same notification sequence to two instances watching the same inodes with the same masks for a single-threaded history; "
+           "notifications are queued before the originating syscall returns; the harness's 20-line record decoder and documented translation table")
+
+
+def _e1(text):
+    return dict(engine="E1", level_text=text, note=E1_NOTE, technique=PBT)
+
+
+MANIFEST_TEXT = {
+    "C01": _e1("Exploration: every event the reference model derives from the kernel's own notification stream (shadow instance) must be delivered with the right Op and Name; exact in quiescent segments, run-length rule in bursts. Search, not proof: bounded by case count; reaches batchings, name shapes and op mixes the scripted suite cannot."),
+    "C02": _e1("Exploration: every delivered event must be one the model derives; Op non-empty and within the requested set. Same search space as C01 with silent-by-specification ops emphasised."),
+    "C03": _e1("Exploration: delivered sequence equals the model sequence (order class reported only when the multisets agree), over buffer sizes and consumer paces."),
+    "C04": _e1("Exploration: sequential reference model of the watch set (first cleaned spelling per inode, re-point on changed inode, release of the old one); WatchList compared after every step; Add error iff the kernel refuses; Remove error classes; panics caught."),
+    "C08": _e1("Exploration: Name must be byte-equal to Clean(first Add argument) [+ '/' + entry name used by the harness], over spellings, symlinked arguments and entry names of every length class, decoded at varying buffer offsets."),
+    "C09": _e1("Exploration: model watch lifetime (ends on IN_DELETE_SELF / IN_MOVE_SELF / IN_IGNORED / IN_UNMOUNT; Remove suppressed only if the listed parent reported the removal) compared through WatchList, Remove results, event silence and re-Add."),
+    "C10": _e1("Exploration: nothing may be received on Errors for benign histories run at full speed with the reader parked at drawn points; overflow part: ErrEventOverflow and continued service."),
+    "C11": _e1("Exploration: renamedFrom of every Create equals the old name the model pairs through the kernel cookie (unbounded map vs the code's 10-slot ring), empty otherwise."),
+    "C12": _e1("Exploration: at quiescent points the kernel marks of the Watcher (from /proc/self/fdinfo) must equal those of the shadow instance, and table sizes must equal len(WatchList)."),
+    "C15": dict(engine="E3", level_text="Exhaustive enumeration of every flag combination each backend inspects and every requestable operation set, against independently written documented tables (finite domain fully covered; kqueue/Windows/FEN functions run on Linux from extracted source).",
+                note="trusted: the harness's tables (from README/godoc, inotify(7), kqueue(2), Win32 docs); /proc/self/fdinfo for the subscribed mask; go/parser extraction of the Windows/FEN functions",
+                technique="exhaustive enumeration of a finite input domain against a documented table (property-based testing family, bounded-exhaustive generator)"),
+    "C16": dict(engine="E3", level_text="Exhaustive over the low 16 bits x 228 probe sets, rapid-sampled above; String parsed back to the set, Event.String parsed back with strconv.Unquote.",
+                note="trusted: strconv.QuotedPrefix/Unquote as inverse of %q; the documented operation names",
+                technique="bounded-exhaustive + random property-based testing with inverse-function (round-trip) oracle"),
+    "C20": dict(engine="E3", level_text="Exhaustive over all pairs of line sequences over a 3-letter alphabet up to length 5 plus rapid-generated long texts and templates; oracle is an independent patch applier and an independent backtracking matcher.",
+                note="trusted: the harness's patch applier and template matcher; diff.go copied verbatim from the working tree at check time",
+                technique="bounded-exhaustive + random property-based testing with independent patch-applier / reference-matcher oracle"),
 }
